@@ -1,7 +1,8 @@
 """Generic sweeps every property runs over its anchor files: R31 (no possibly-undefined local), R22 (no stutter
 path in a `while` loop) and R33 (no state kept from one call to the next: every property is quantified over all
 inputs *and histories*, so a result must be a function of the arguments).  All have expected count zero on a healthy
-tree; their positive examples are the self-test variants of C18/C19 (R31), C02 (R22) and C10/C12 (R33)."""
+tree; their positive examples are the self-test variants of C18/C19 (R31), C02 (R22), C10/C12 (R33), C11 (R36) and
+C13 (R37 undefined name, R38 implicit None return)."""
 
 from __future__ import annotations
 
@@ -11,7 +12,7 @@ import os
 
 from sa.report import Ctx
 from sa.stutter import stutter_paths
-from sa.undefined import possibly_undefined
+from sa.undefined import implicit_none_paths, possibly_undefined, undefined_names
 
 HERE = os.path.dirname(os.path.dirname(os.path.abspath(__file__)))
 
@@ -156,4 +157,27 @@ def generic_sweeps(ctx: Ctx, stutter: bool = True, skip_stutter_modules: tuple =
                     n_dunder += 1
                     ctx.ob(g + "4", "R36 NO-DIRECT-RICH-COMPARISON", f, f"`{ast.unparse(n)[:40]}` is not used in place of the comparison operator", False, "the bound method returns NotImplemented - truthy - for an operand of a type it does not handle, so every such value 'matches'; the operator falls back to the reflected method and identity", node=n)
     ctx.ob(g + "4", "R36 NO-DIRECT-RICH-COMPARISON", None, "no rich-comparison method is called directly in place of its operator", n_dunder == 0, "", rel=mods[0].rel, fname="<anchor files>")
+    # R37: a name read that is bound nowhere (function, enclosing functions, module, builtins) - typically its only
+    # binding was removed; R38: a function that returns values but can also run off its end returns None there
+    n_undef = n_none = 0
+    for m in mods:
+        mod_names = set()
+        for n in m.tree.body:
+            for x in (ast.walk(n) if not isinstance(n, (ast.FunctionDef, ast.AsyncFunctionDef, ast.ClassDef)) else [n]):
+                if isinstance(x, ast.Name) and isinstance(x.ctx, ast.Store):
+                    mod_names.add(x.id)
+                elif isinstance(x, (ast.FunctionDef, ast.AsyncFunctionDef, ast.ClassDef)):
+                    mod_names.add(x.name)
+                elif isinstance(x, ast.alias):
+                    mod_names.add((x.asname or x.name).split(".")[0])
+        for q in sorted(m.funcs):
+            f = m.funcs[q]
+            for nm, node in undefined_names(f, mod_names):
+                n_undef += 1
+                ctx.ob(g + "5", "R37 UNDEFINED-NAME", f, f"`{nm}` is bound somewhere (function, enclosing function, module or builtin)", False, "no binding of this name exists: NameError when the statement runs", node=node)
+            if implicit_none_paths(f):
+                n_none += 1
+                ctx.ob(g + "6", "R38 NO-IMPLICIT-NONE", f, "a function that returns values returns one on every path", False, "some path runs off the end of the function and returns None where callers expect a value", node=f.node)
+    ctx.ob(g + "5", "R37 UNDEFINED-NAME", None, "every name read in the anchor files is bound somewhere", n_undef == 0, "", rel=mods[0].rel, fname="<anchor files>")
+    ctx.ob(g + "6", "R38 NO-IMPLICIT-NONE", None, "no value-returning function of the anchor files can run off its end", n_none == 0, "", rel=mods[0].rel, fname="<anchor files>")
     ctx.count("functions swept (R31/R22)", n_funcs)
